@@ -37,8 +37,13 @@ impl DiagnosticAction {
     }
 
     pub fn is_match(&self, is_disable: bool, range: &TextRange, code: &DiagnosticCode) -> bool {
-        if self.range.intersect(*range).is_none() {
-            return false;
+        // `TextRange::intersect` also yields `Some(empty)` for ranges that merely touch, e.g. a
+        // diagnostic starting at column 0 of the line after the suppressed one. An empty overlap
+        // only counts for an empty diagnostic range that lies inside the suppressed range.
+        match self.range.intersect(*range) {
+            Some(overlap) if !overlap.is_empty() => {}
+            Some(_) if range.is_empty() && range.start() < self.range.end() => {}
+            _ => return false,
         }
 
         match (&self.kind, is_disable) {
